@@ -314,8 +314,8 @@ class MapperPart:
                     stats=dict(site=site, ret=("None-fn" if cb is None else ret if isinstance(ret, str) else ret[0] + ("-falsy" if falsy else ""))))
 
     def coq(self, site, desc, before):
-        fn = "None" if desc["body"] is None else f"(Some (CB {H.coq_list(mop_coq(m) for m in desc['body'])} {ret_coq(desc['ret'])}))"
-        return f"({site}, {fn}, {dict_coq(before)})"
+        fn = "(@None callback)" if desc["body"] is None else f"(Some (CB {H.coq_list(mop_coq(m) for m in desc['body'])} {ret_coq(desc['ret'])}))"
+        return f"(({site}, {fn}, {dict_coq(before)}) : Z * option callback * dict)"
 
     def run_site(self, site, cb):
         """call_mapper as the library calls it; returns (data dict object, its content before, value used, exception, data_id obs)"""
@@ -632,7 +632,7 @@ class WrapPart:
                 if (nodes[j] in [c for c in nodes if any(c is x for x in nodes[i].get_clones(add_self=True))]) != same:
                     bad(f"nodes of w{i}, w{j}: clones iff same dict violated")
         addrs = [id(d) for d in dicts]
-        coq = f"({H.coq_list(H.z(a) for a in addrs)}, {H.coq_list(wop_coq(o) for o in desc['ops'])})"
+        coq = f"(({H.coq_list(H.z(a) for a in addrs)}, {H.coq_list(wop_coq(o) for o in desc['ops'])}) : list Z * list MiscWrap.op)"
         kinds = sorted({o[0] for o in desc["ops"]})
         return Case(desc=desc, coq_input=coq, impl_obs=[results, dump], oracle_fail=("DictWrapper: " + fails[0]) if fails else None,
                     nontrivial=len(wraps) >= 2, key=H.digest(desc),
@@ -698,6 +698,31 @@ def _err(fn):
         return ("ERR", H.err_class(e), e)
 
 
+def unique_siblings(nodes, univ, path="u"):
+    """generator hygiene: the library refuses two siblings with one data_id, so a generated sibling list never holds two
+    nodes whose (data, explicit data_id) pairs would give the same data_id: equal-comparing data without an explicit id
+    (equal universe specs; identity-hashed `p:`/`w:` objects: the same universe entry), or the same explicit id.  The
+    later one gets a fresh explicit str id.  Deterministic; applied inside descs(), so the desc stays the replay."""
+    seen = set()
+    out = []
+    for j, (lbl, kind, did, kids) in enumerate(nodes):
+        spec = univ[lbl % len(univ)]
+        if did is not None:
+            key = ("id", type(did).__name__, did)
+        elif spec[:2] == "i:":
+            key = ("id", "int", int(spec[2:]))          # hash(n) == n for the small ints of the universes
+        elif spec[:2] in ("p:", "w:"):
+            key = ("obj", lbl % len(univ))
+        else:
+            key = ("val", spec)
+        if key in seen:
+            did = f"{path}{j}"
+            key = ("id", "str", did)
+        seen.add(key)
+        out.append([lbl, kind, did, unique_siblings(kids, univ, f"{path}{j}_")])
+    return out
+
+
 NM_UNIV = ["s:a", "s:it's", "s:q\"d", "s:back\\slash", "s:", "s:x y", "i:7", "i:-3", "e:1", "t:1,2", "s:tab\there", "s:both'\"", "p:4", "s:a"]
 NM_TREE_NAMES = ["T", "it's", "a\"b", "", "x\\y", "both'\""]
 
@@ -725,6 +750,7 @@ class NodeMiscPart:
                     k += 1
                     nodes = B.shape_to_nodes(shape, lambda i, d, s, k=k: ((i * 5 + k) % len(NM_UNIV), ["a", "b b", "it's"][(i + k) % 3] if typed else None,
                                                                         [None, f"id{i}", 100 + i, "it's", -5 - i][(i + k) % 5] if (i + k) % 2 else None))
+                    nodes = unique_siblings(nodes, NM_UNIV)
                     yield dict(typed=typed, univ=NM_UNIV, nodes=nodes, cls=("My" if k % 3 == 0 else "") + ("TypedTree" if typed else "Tree"),
                                name=NM_TREE_NAMES[k % len(NM_TREE_NAMES)])
         for j in range(50 if tier == "quick" else 600):
@@ -732,6 +758,7 @@ class NodeMiscPart:
             typed = rng.random() < 0.4
             shape = H.random_shape(rng, n, deep=rng.choice([0.2, 0.5, 0.8]))
             nodes = B.shape_to_nodes(shape, lambda i, d, s: (rng.randrange(len(NM_UNIV)), rng.choice(["a", "b b", "it's"]) if typed else None, f"id{i}"))
+            nodes = unique_siblings(nodes, NM_UNIV)
             d = dict(typed=typed, univ=NM_UNIV, nodes=nodes)
             if j % 2:
                 yield dict(d, order_seed=rng.randrange(10 ** 6), hist=NH.random_hist(rng, n, len(NM_UNIV), typed, rng.randint(0, 4)))
@@ -747,12 +774,19 @@ class NodeMiscPart:
 
     def run(self, desc) -> Case:
         typed = bool(desc.get("typed"))
+        tree = None
         if "hist" in desc:
-            tree, U, _objs, _sh, _errors = NH.build_hist(desc)
-        else:
+            try:
+                tree, U, _objs, _sh, _errors = NH.build_hist(desc)
+            except Exception:  # noqa: BLE001   (a clash inside the generated labelling: the plain build below keeps what can be built)
+                tree = None
+        if tree is None:
             U = B.make_universe(desc["univ"])
-            tree = TREE_CLASSES[desc["cls"]](desc["name"])
-            B.add_nodes(tree._root, desc["nodes"], U, typed)
+            tree = TREE_CLASSES[desc.get("cls") or ("TypedTree" if typed else "Tree")](desc.get("name", "T"))
+            try:
+                B.add_nodes(tree._root, desc["nodes"], U, typed)
+            except Exception:  # noqa: BLE001   (refused by the library: the tree built so far is the case)
+                pass
         root = tree._root
         nodes = B.all_nodes(root)
         n = len(nodes)
@@ -938,6 +972,7 @@ class RemovedPart:
                 for typed in (False, True):
                     k += 1
                     nodes = B.shape_to_nodes(shape, lambda i, d, s, k=k: ((i + d * 3 + k) % len(RM_UNIV), ["a", "b"][(i + k) % 2] if typed else None, None))
+                    nodes = unique_siblings(nodes, RM_UNIV)
                     routes = [[r, i] for i in range(n) for r in ("remove", "remove_keep", "remove_children", "remove_clones", "del", "filter")] + [["clear", 0]]
                     if tier == "quick":
                         routes = rng.sample(routes, min(len(routes), 4))
@@ -948,6 +983,7 @@ class RemovedPart:
             typed = rng.random() < 0.4
             shape = H.random_shape(rng, n, deep=rng.choice([0.3, 0.6, 0.9]))
             nodes = B.shape_to_nodes(shape, lambda i, d, s: (rng.randrange(len(RM_UNIV)), rng.choice(["a", "b"]) if typed else None, None))
+            nodes = unique_siblings(nodes, RM_UNIV)
             yield dict(typed=typed, univ=RM_UNIV, nodes=nodes,
                        route=[rng.choice(["remove", "remove", "remove_keep", "remove_children", "remove_clones", "del", "filter", "clear"]), rng.randrange(n)])
 
@@ -1086,6 +1122,7 @@ class PrintPart:
                 for typed in (False, True):
                     i += 1
                     nodes = B.shape_to_nodes(shape, lambda k, d, s, i=i: ((k * 5 + i) % len(PR_UNIV), ("k%d" % (k % 2)) if typed else None, f"id{k}"))
+                    nodes = unique_siblings(nodes, PR_UNIV)
                     yield dict(typed=typed, univ=PR_UNIV, nodes=nodes, name="T%d" % (i % 3), repr=["fmt", "default"][i % 2],
                                calls=[[["default"], None, "\n", False], [["default"], None, "\n", True]] + calls(6))
         for j in range(25 if tier == "quick" else 300):
@@ -1093,6 +1130,7 @@ class PrintPart:
             typed = rng.random() < 0.4
             shape = H.random_shape(rng, n, deep=rng.choice([0.2, 0.5, 0.8]))
             nodes = B.shape_to_nodes(shape, lambda k, d, s: (rng.randrange(len(PR_UNIV)), ("k%d" % (k % 2)) if typed else None, f"id{k}"))
+            nodes = unique_siblings(nodes, PR_UNIV)
             yield dict(typed=typed, univ=PR_UNIV, nodes=nodes, name="T%d" % (j % 3), repr=["fmt", "default"][j % 2], calls=calls(8))
 
     def shrink_candidates(self, desc):
@@ -1107,7 +1145,10 @@ class PrintPart:
         typed = bool(desc.get("typed"))
         U = B.make_universe(desc["univ"])
         tree = (TypedTree if typed else Tree)(desc["name"])
-        B.add_nodes(tree._root, desc["nodes"], U, typed)
+        try:
+            B.add_nodes(tree._root, desc["nodes"], U, typed)
+        except Exception:  # noqa: BLE001   (refused by the library: the tree built so far is the case)
+            pass
         nodes = B.all_nodes(tree._root)
         if desc["repr"] == "fmt":
             rarg = "{node.data}"
@@ -1190,12 +1231,14 @@ class MermaidDefaultsPart:
                 for typed in (False, True):
                     i += 1
                     nodes = B.shape_to_nodes(shape, lambda k, d, s, i=i: ((k * 3 + i) % len(MD_UNIV), ("k%d" % (k % 2)) if typed else None, None))
+                    nodes = unique_siblings(nodes, MD_UNIV)
                     yield dict(typed=typed, univ=MD_UNIV, nodes=nodes)
         for _ in range(15 if tier == "quick" else 200):
             n = rng.randint(3, 9)
             typed = rng.random() < 0.4
             shape = H.random_shape(rng, n, deep=rng.choice([0.2, 0.5, 0.8]))
             nodes = B.shape_to_nodes(shape, lambda k, d, s: (rng.randrange(len(MD_UNIV)), ("k%d" % (k % 2)) if typed else None, None))
+            nodes = unique_siblings(nodes, MD_UNIV)
             yield dict(typed=typed, univ=MD_UNIV, nodes=nodes)
 
     def shrink_candidates(self, desc):
@@ -1236,7 +1279,7 @@ class MermaidDefaultsPart:
             if len(lines) < 8 or lines[7] != "flowchart " + NM.DEFAULT_DIRECTION or lines[0] != "```mermaid" or lines[-1] != "```":
                 fails.append(f"default chart: head {lines[:8]!r}")
             obs.append(lines)
-        coq = f"({H.coq_rt(tree._root, U)}, {H.coq_list(H.z(0 if s is None else H.nid(s)) for s in [None] + nodes)})"
+        coq = f"(({H.coq_rt(tree._root, U)}, {H.coq_list(H.z(0 if s is None else H.nid(s)) for s in [None] + nodes)}) : rt * list Z)"
         return Case(desc=desc, coq_input=coq, impl_obs=obs, oracle_fail=("mermaid defaults: " + fails[0]) if fails else None,
                     nontrivial=len(nodes) >= 1, key=H.digest(desc), stats=dict(nodes=len(nodes), typed=typed))
 
@@ -1380,7 +1423,7 @@ class SelfCheckPart:
 
         rows = []
         for x in order:
-            par = "None" if x._parent is None else f"(Some {num(x._parent)})"
+            par = "(@None Z)" if x._parent is None else f"(Some {num(x._parent)})"
             rows.append(f"({num(x)}, ({par}, {H.coq_list(str(num(c)) for c in (x._children or []))}, {H.coq_bool(x._tree is tree)}, {did_of(x)}))")
         idx = H.coq_list(f"({H.coq_did(d)}, {H.coq_list(str(num(c)) for c in l)})" for d, l in tree._nodes_by_data_id.items())
         coq = (f"(SC {H.coq_list(rows)} {H.coq_list(str(num(c)) for c in (root._children or []))} "
@@ -1430,12 +1473,14 @@ class WritersPart:
                 for typed in (False, True):
                     i += 1
                     nodes = B.shape_to_nodes(shape, lambda k, d, s, i=i: ((k * 2 + i) % len(WR_UNIV), ("k%d" % (k % 2)) if typed else None, None))
+                    nodes = unique_siblings(nodes, WR_UNIV)
                     yield dict(typed=typed, univ=WR_UNIV, nodes=nodes, seed=i)
         for j in range(5 if tier == "quick" else 150):
             n = rng.randint(3, 8)
             typed = rng.random() < 0.4
             shape = H.random_shape(rng, n, deep=rng.choice([0.2, 0.5, 0.8]))
             nodes = B.shape_to_nodes(shape, lambda k, d, s: (rng.randrange(len(WR_UNIV)), ("k%d" % (k % 2)) if typed else None, None))
+            nodes = unique_siblings(nodes, WR_UNIV)
             yield dict(typed=typed, univ=WR_UNIV, nodes=nodes, seed=1000 + j)
 
     def shrink_candidates(self, desc):
@@ -1553,7 +1598,8 @@ class WritersPart:
                 dot_terms.append(f"({C17.coq_dopts(o)}, {H.coq_bool(p)}, {H.coq_bool(f)})")
         import shutil
         shutil.rmtree(tmp, ignore_errors=True)
-        coq = f"({H.coq_rt(tree._root, U)}, {H.coq_list(mer_terms)}, {H.coq_list(dot_terms)})"
+        coq = (f"(({H.coq_rt(tree._root, U)}, {H.coq_list(mer_terms)}, {H.coq_list(dot_terms)}) "
+               f": rt * list (Z * mopts * bool * bool) * list (dopts * bool * bool))")
         return Case(desc=desc, coq_input=coq, impl_obs=[mer_obs, dot_obs], oracle_fail=("writers: " + fails[0]) if fails else None,
                     nontrivial=len(nodes) >= 1, key=H.digest(desc),
                     stats=dict(nodes=len(nodes), typed=typed, broken=sum(1 for o in mer_obs if o[0] == 3), refused=sum(1 for o in mer_obs + dot_obs if o[0] == 2)))
@@ -1735,9 +1781,9 @@ class ForwardPart:
                                  f"{'value ' + repr(v) if err is None else 'AttributeError'}")
             # a native name answers (or raises) on its own: what it answers is the business of the other parts (REMOVED for removed nodes)
             obs.append([0] if name in own and not from_data else [-1] if err is not None else [1, pv_obs(v)] if from_data else [0])
-        tf = "None" if desc["removed"] else f"(Some {H.coq_bool(fw)})"
-        coq = (f"({H.coq_list(H.coq_text(n) for n in own)}, {tf}, {dict_coq([[k, v] for k, v in pairs])}, "
-               f"{H.coq_list(H.coq_text(n) for n in FW_NAMES)})")
+        tf = "(@None bool)" if desc["removed"] else f"(Some {H.coq_bool(fw)})"
+        coq = (f"(({H.coq_list(H.coq_text(n) for n in own)}, {tf}, {dict_coq([[k, v] for k, v in pairs])}, "
+               f"{H.coq_list(H.coq_text(n) for n in FW_NAMES)}) : list text * option bool * dict * list text)")
         return Case(desc=desc, coq_input=coq, impl_obs=obs, oracle_fail=("forward: " + fails[0]) if fails else None, key=H.digest(desc),
                     nontrivial=bool(desc["attrs"]), stats=dict(typed=typed, forward=fw, removed=desc["removed"], forwarded=sum(1 for o in obs if o[0] == 1)))
 
